@@ -423,6 +423,13 @@ theorem unprotected_line_loses_text : docBody "- third;".toList ≠ "- third;".t
 theorem splicer_branches_protect_user_code :
     Shroud.Gen.LineCfg.splicerBranches = modelSplicerBranches := by decide +kernel
 
+/-- **table theorem** (regenerated AST scan of wrapf.py): every comma-separated list the Fortran emitter builds inside a
+    statement - dummy and actual arguments, USE only-lists, IMPORT lists, PRIVATE lists - is joined with a break hint,
+    so `write_continue` can always continue it (`wc_length` then bounds the line); and there are such lists -/
+theorem fortran_lists_have_break_hints :
+    Shroud.Gen.LineCfg.fortranListJoins.all (·.2) = true ∧ Shroud.Gen.LineCfg.fortranListJoins.length ≥ 6 := by
+  decide +kernel
+
 example : protect "- third;".toList = "@- third;".toList ∧ protect "#if X +".toList = "#if X +".toList ∧
     protect "a = b +".toList = "@a = b +".toList ∧ protect "plain".toList = "plain".toList := by decide
 
